@@ -50,7 +50,7 @@ let parse_action l =
   | ["drop"; s] -> DDrop (nat s)
   | ["downgrade"; s; d] -> DDowngrade (nat s, nat d)
   | ["upgrade"; s; d] -> DUpgrade (nat s, nat d)
-  | ["hook"; a; it] -> DHook (nat a, hitem_of it)
+  | ["hook"; a; it] -> DHook (nat a, List.map hitem_of (split_on '+' it))
   | ["run"; a; r] -> DRun (nat a, rout_of r)
   | ["auto"; a; v] -> DAuto (nat a, b v)
   | ["advance"; k] -> DAdvance (nat k)
@@ -171,6 +171,7 @@ let parse_observed f : vline list list =
       match words l with
       | "R" :: _ -> cur := []
       | ["E"] -> rounds := List.rev !cur :: !rounds
+      | "Q" :: _ -> ()          (* sequence stamps: for the monitors only *)
       | k :: toks -> cur := (k, toks) :: !cur
       | [] -> ()) (read_lines f);
   List.rev !rounds
